@@ -1,6 +1,8 @@
 """C01  Session state machine follows the RFC 4271 profile for every event order."""
 import random
 
+from vlib import budget
+
 from vlib import session as S
 from vlib.monitors import ProfileMonitor, EstabMonitor
 
@@ -24,7 +26,7 @@ CFGS = {
 DEPTH = {'quick': {'default': (3, 6), 'retry40': (3, 5), 'small': (3, 6)},
          'thorough': {'default': (4, 9), 'retry40': (4, 8), 'small': (4, 9)}}
 PARTS = {'quick': 5, 'thorough': 5}
-WALKS = {'quick': (600, 300), 'thorough': (5000, 300)}
+WALKS = {'quick': (600, 300), 'thorough': (15000, 300)}
 BUDGET = {'quick': 50, 'thorough': 1000}
 MON = [ProfileMonitor, EstabMonitor]
 # prefix-seeded exploration: sessions whose timers coincide with the boot / idle-hold / retry timers, second sessions,
@@ -60,6 +62,7 @@ def plan(tier, seed):
     nshard = 4 if tier == 'quick' else 16
     for i in range(nshard):
         shards.append(dict(kind='walk', seed=seed * 1000 + i, n=n // nshard, length=length, cfg=list(CFGS)[i % 3]))
+        shards.append(dict(kind='walk', seed=seed * 1000 + 500 + i, n=n // nshard, length=length, cfg=list(CFGS)[i % 3], fuzz=200 if tier == 'quick' else 2000))
     return shards
 
 
@@ -97,15 +100,21 @@ def run_shard(sh):
             res['samples'] = [dict(cfg=sh['cfg'], events=list(s)) for s in list(ex.seen.values())[-2:]]
     else:
         rng = random.Random(sh['seed'])
+        alpha = S.ALPHABET_C01
+        if sh.get('fuzz'):
+            # UPDATE / NOTIFICATION / ROUTE-REFRESH frames with mutated bodies among the peer's messages
+            alpha = ['OPEN', 'OPEN_h9', 'KA', 'KA', 'UPD1', 'NOTI_CEASE'] + S.fuzz_alphabet_typed(rng, sh['fuzz'])
         for i in range(sh['n']):
-            r = S.random_walk(cfg, MON, S.ALPHABET_C01, rng, sh['length'], multi=False,
+            if budget.expired():
+                break
+            r = S.random_walk(cfg, MON, alpha, rng, sh['length'], multi=False,
                               weights={'TICK': 6, 'ACCEPT': 4, 'REFUSE': 1.5, 'STOP': 0.5, 'START': 1.0, 'OPEN': 6, 'KA': 6})
             note(r)
             res['evaluations'] += 1
             res['distinct'].append('walk|%d|%d' % (sh['seed'], i))
             if i == 0:
                 res['samples'].append(dict(cfg=sh['cfg'], walk=r.seq[:40]))
-        res['counters'] = dict(walks=sh['n'], **stats)
+        res['counters'] = dict(walks=res['evaluations'], **stats)
     res['sets'] = dict(state_event_pairs=['%s + %s' % p for p in sorted(pairs)], notification_codes=['%s/%s' % n for n in sorted(notifs, key=str)])
     res['violations'] = list(viol.values())
     return res
@@ -127,5 +136,5 @@ def floors(m, tier):
 
 
 def replay(rep):
-    r = S.run_seq(rep['cfg'], rep['events'], MON)
+    r = S.run_seq(rep['cfg'], rep['events'], MON, fuzz=rep.get('fuzz'), fuzz_meta=rep.get('fuzz_meta'))
     return r.collect()
